@@ -142,7 +142,10 @@ FailsLoop(r) ==
          /\ TLe(Deg(0), r.r) /\ TLt(r.r, Deg(180))
          /\ TLe(Deg(0), r.t) /\ TLt(r.t, Deg(360))) THEN <<"input_in_domain">> ELSE
     IF ~r.fin THEN <<"finite">> ELSE
-    Clause("loop_distance_is_r", Near(r.d, r.r, RelTol(r.r)))
+    \* "a point at distance r ... from the START": the start point handed to translate
+    \* (scalar or array argument) is still the start point afterwards
+    Clause("start_point_not_modified", r.argsok)
+    \o Clause("loop_distance_is_r", Near(r.d, r.r, RelTol(r.r)))
     \o Clause("loop_bearing_is_t",
            (SepConditioned(r.r, 100000) /\ OffPole(r.p)) => CircNear(r.b, r.t, RelTol(r.t)))
 
